@@ -64,25 +64,34 @@ func (v WSVariant) String() string {
 // mounted on it when nothing refers to the spec's own root objects as a field type and no type
 // collides with the names the configuration defines itself.
 func apiCompatible(spec *Spec) bool {
-	if spec.Subscription != "" {
-		// a subscription started over the socket needs resolvers returning SubscriptionSourceStream
-		return false
+	if spec.Subscription != "" && spec.Subscription != "Subscription" {
+		return false // apifu.Config names its subscription root itself
 	}
 	for _, t := range spec.Types {
-		if t.Name == "Node" || t.Name == "Subscription" {
+		if t.Name == "Node" || (t.Name == "Subscription" && spec.Subscription != "Subscription") {
 			return false
+		}
+		if t.Name == "Subscription" && (len(t.Req) > 0 || len(t.Ifaces) > 0) {
+			return false // Config.AddSubscription builds an ungated root of its own
 		}
 		for _, f := range t.Fields {
 			b := baseName(f.Type)
 			if f.Conn != nil {
 				b = baseName(f.Conn.Node)
 			}
-			if b == spec.Query || (spec.Mutation != "" && b == spec.Mutation) {
+			if b == spec.Query || (spec.Mutation != "" && b == spec.Mutation) || (spec.Subscription != "" && b == spec.Subscription) {
 				return false
+			}
+			if f.Conn != nil {
+				for _, ef := range f.Conn.EdgeFields {
+					if eb := baseName(ef.Type); eb == spec.Query || eb == spec.Mutation || (spec.Subscription != "" && eb == spec.Subscription) {
+						return false
+					}
+				}
 			}
 		}
 		for _, m := range t.Members {
-			if m == spec.Query || m == spec.Mutation {
+			if m == spec.Query || m == spec.Mutation || (spec.Subscription != "" && m == spec.Subscription) {
 				return false
 			}
 		}
@@ -98,12 +107,12 @@ func apiCompatible(spec *Spec) bool {
 		}
 	}
 	for _, f := range spec.Orphans {
-		if b := baseName(f.Conn.Node); b == spec.Query || b == spec.Mutation {
+		if b := baseName(f.Conn.Node); b == spec.Query || b == spec.Mutation || (spec.Subscription != "" && b == spec.Subscription) {
 			return false
 		}
 	}
 	for _, ci := range spec.ConnIfaces {
-		if b := baseName(ci.Node); b == spec.Query || b == spec.Mutation {
+		if b := baseName(ci.Node); b == spec.Query || b == spec.Mutation || (spec.Subscription != "" && b == spec.Subscription) {
 			return false
 		}
 	}
@@ -127,8 +136,14 @@ func buildAPI(spec *Spec, w *world) (*apifu.API, error) {
 			cfg.AddMutation(name, f)
 		}
 	}
+	if def.Subscription != nil {
+		for name, f := range def.Subscription.Fields {
+			cfg.AddSubscription(name, f)
+		}
+	}
 	for _, t := range def.AdditionalTypes {
-		if t == graphql.NamedType(def.Query) || (def.Mutation != nil && t == graphql.NamedType(def.Mutation)) {
+		if t == graphql.NamedType(def.Query) || (def.Mutation != nil && t == graphql.NamedType(def.Mutation)) ||
+			(def.Subscription != nil && t == graphql.NamedType(def.Subscription)) {
 			continue
 		}
 		cfg.AddNamedType(t)
@@ -325,7 +340,11 @@ func (s *wsSession) run(w *world, q *query) (o outcome) {
 		case m.Type == "ping":
 			s.conn.WriteJSON(wsMessage{Type: "pong"})
 		case m.Id == id && (m.Type == "data" || m.Type == "next"):
-			o.Resp = canonResponse(m.Payload, q)
+			// a query answers once; a subscription answers once per delivered event
+			if o.Resp != "" {
+				o.Resp += " || "
+			}
+			o.Resp += canonResponse(m.Payload, q)
 		case m.Id == id && m.Type == "error":
 			o.Resp = "error " + string(m.Payload)
 		case m.Id == id && m.Type == "complete":
@@ -484,6 +503,12 @@ func (h *harness) checkAPI(spec *Spec, r interface {
 						}
 					}
 					h.run.Count("api:ws:" + wsVar[vi].Proto)
+					if q.Label == "subscription" {
+						h.run.Count("api:ws:subscription")
+						if strings.Contains(a.Resp, " || ") {
+							h.run.Count("api:ws:subscription-with-events")
+						}
+					}
 					if wsVar[vi].Init != nil {
 						h.run.Count("api:ws:features-from-init-hook")
 					}
